@@ -312,10 +312,17 @@ def check(run):
     stream_pages(run, rng, 2000 if thorough else 250, 'flex-pages')
     stream_twice(run, rng, 1500 if thorough else 200, 'laid-out-twice')
     stream_witnesses(run, 'witnesses')
+    stream_areas_text(run, random.Random(run.seed * 7919 + 1207), 4000 if thorough else 600, 'grid-areas-text')
 
 
 def replay(data):
     d = data.get('data', {})
+    if d.get('stream') == 'grid-areas-text':
+        c = d['case']
+        (st, o), = common.run_impl('impl_c12', 'template_areas', [{'value': c['value']}])
+        ref = areas_reference(c['rows'])
+        print('replay: implementation', st, o, 'css-grid 7.3', ref)
+        return 0 if st == 'ok' and o == ref else 1
     if d.get('stream', '').startswith('flex-row'):
         c = d['case']
         (st, o), = common.run_impl('impl_c12', 'render_container', [{'html': row_html(c)}])
@@ -578,11 +585,127 @@ def stream_monitor(run, kind, name, cases, docs, outs):
                                   'growing line fills, line stacking',
                           'cross': 'single-line row containers, align-items x align-self x auto/definite cross sizes; clauses: '
                                    'flex-start/flex-end/center/stretch placement, stretch fills the line',
-                          'grid': 'grids 1..4 x 2..4 with named template areas (guillotine partitions), items placed by '
+                          'grid': 'grids 1..4 x 2..4 with named template areas (guillotine partitions, in 60% of the cases some '
+                                  'areas replaced by null cells spelled ./../.../.... with one or two spaces between cells; '
+                                  '40% with px tracks only: the item rectangle must then be the one the template text gives), '
+                                  'items placed by '
                                   'grid-area or by the implicit <area>-start/-end line names, tracks px / fr / minmax(px, fr) / '
                                   'repeat(), gaps; clauses: disjoint areas do not overlap, shared grid lines give shared '
                                   'edges (stretch fills the area), adjacent areas one gap apart, fr tracks partition the '
                                   'container'}[kind])
+
+
+# ------------------------------------------------------------------------------------------ grid-template-areas text
+# css-grid 7.3: each <string> of grid-template-areas is tokenised into: a sequence of name code points = a named cell
+# token; a sequence of ONE OR MORE "." = ONE null cell token; white space = nothing (it only separates tokens);
+# anything else = a trash token (the declaration is invalid).  All rows must have the same number of cells (at least
+# one) and every named area must be a single filled-in rectangle.  The validator is called directly (impl_c12.
+# template_areas) on generated values in which null cells are written in every spelling (".", "..", "...." ; runs
+# separated by white space = several null cells; leading / trailing / repeated white space; a null cell token directly
+# against a name) and compared with this reference.
+
+def areas_reference(rows_text):
+    """rows_text: the texts of the strings.  Returns None (invalid) or the rows as lists of names / None."""
+    rows = []
+    for text in rows_text:
+        row, i = [], 0
+        while i < len(text):
+            ch = text[i]
+            if ch in ' \t\n\r\f':
+                i += 1
+            elif ch == '.':
+                while i < len(text) and text[i] == '.':
+                    i += 1
+                row.append(None)
+            elif ch.isalnum() or ch in '_-' or ord(ch) >= 0x80:
+                j = i
+                while j < len(text) and (text[j].isalnum() or text[j] in '_-' or ord(text[j]) >= 0x80):
+                    j += 1
+                row.append(text[i:j])
+                i = j
+            else:
+                return None
+        if not row:
+            return None
+        rows.append(row)
+    if not rows or len(set(len(r) for r in rows)) != 1:
+        return None
+    cells = {}
+    for y, r in enumerate(rows):
+        for x, nm in enumerate(r):
+            if nm is not None:
+                cells.setdefault(nm, set()).add((x, y))
+    for nm, cs in cells.items():
+        xs, ys = [x for x, _ in cs], [y for _, y in cs]
+        if len(cs) != (max(xs) - min(xs) + 1) * (max(ys) - min(ys) + 1):
+            return None
+    return rows
+
+
+def spell_row(rng, cells):
+    """one <string> for a row of cells (names / None): random spelling of the null cells and of the white space"""
+    out = [rng.choice(['', '', ' ', '  '])]
+    prev = 'start'
+    for cell in cells:
+        kind = 'dot' if cell is None else 'name'
+        if prev == 'start':
+            sep = ''
+        elif prev == kind or rng.random() < 0.8:
+            sep = rng.choice([' ', ' ', '  ', '   ', '\t'])     # two names, or two null cells, need white space
+        else:
+            sep = ''                                            # "a." / ".a": a null cell token against a name
+        out.append(sep + ('.' * rng.choice([1, 1, 1, 2, 3, 4]) if cell is None else cell))
+        prev = kind
+    out.append(rng.choice(['', '', ' ', '  ']))
+    return ''.join(out)
+
+
+def gen_areas_text(rng):
+    R, C = rng.randint(1, 3), rng.randint(1, 5)
+    rects = []
+    _guillotine(rng, 0, 0, R, C, rects)
+    names = ['a', 'b', 'c', 'dd', 'e', 'head', 'g', 'h', 'i', 'j', 'k', 'l', 'm', 'n', 'o', 'p']
+    grid = [[None] * C for _ in range(R)]
+    pnull = rng.choice([0.2, 0.5, 0.8])
+    for i, (r0, c0, r1, c1) in enumerate(rects):
+        if rng.random() < pnull:
+            continue
+        for r in range(r0, r1):
+            for k in range(c0, c1):
+                grid[r][k] = names[i]
+    twist = rng.random()
+    if twist < 0.08 and R >= 2:
+        grid[rng.randrange(R)].append(rng.choice([None, 'z']))                  # rows of different lengths
+    elif twist < 0.16:
+        r, k = rng.randrange(R), rng.randrange(C)
+        grid[r][k] = rng.choice([None, 'a', 'q'])                               # maybe no longer rectangles
+    rows = [spell_row(rng, row) for row in grid]
+    q = rng.choice(['"', "'"])
+    return {'rows': rows, 'value': rng.choice([' ', '\n', '  ']).join(q + r + q for r in rows)}
+
+
+def stream_areas_text(run, rng, n, name):
+    cases = [gen_areas_text(rng) for _ in range(n)]
+    outs = common.run_impl('impl_c12', 'template_areas', [{'value': c['value']} for c in cases], limit=30)
+    nbad, feats = 0, []
+    for c, (st, o) in zip(cases, outs):
+        ref = areas_reference(c['rows'])
+        runs = sum(1 for r in c['rows'] for i in range(len(r)) if r[i] == '.' and (i == 0 or r[i - 1] != '.'))
+        adjacent = any(a is None and b is None for row in (ref or []) for a, b in zip(row, row[1:]))
+        feats.append((len(c['rows']), runs, adjacent, ref is None))
+        if st != 'ok' or o != ref:
+            nbad += 1
+            if nbad <= 3:
+                run.fail('grid-template-areas: the validator and css-grid 7.3 read the value differently',
+                         {'stream': name, 'case': c, 'implementation': o if st == 'ok' else [st, o], 'css_grid': ref},
+                         signature='grid:template-areas-tokens')
+    run.count(name, len(cases), feats, samples=[cases[0]['value']])
+    run.stream_info(name, judged_in='python', mismatches=nbad,
+                    adjacent_null_cells=sum(1 for f in feats if f[2]), invalid=sum(1 for f in feats if f[3]),
+                    rule='direct calls of css/validation/properties.py grid_template_areas on 1..3 strings of 1..5 cells '
+                         '(guillotine partitions, areas turned into null cells with probability .2/.5/.8, 16% twisted '
+                         'into unequal rows / non-rectangles), null cells spelled ./../.../.... and separated by white '
+                         'space, compared with the css-grid 7.3 tokenisation (reference in harness/p_c12.py)')
 
 
 # ------------------------------------------------------------------------------------------ grid monitor
@@ -612,6 +735,15 @@ def gen_mon_grid(rng):
     _guillotine(rng, 0, 0, R, C, rects)
     names = 'abcdefghijklmnop'
     areas = {names[i]: r for i, r in enumerate(rects)}
+    # some areas become null cells (at least one area stays); each null cell is spelled as a run of 1..4 dots
+    null_rng = random.Random(rng.getrandbits(32))
+    if len(areas) > 1 and null_rng.random() < 0.6:
+        for nm in list(areas)[1:] if null_rng.random() < 0.5 else list(areas)[:-1]:
+            if null_rng.random() < 0.5:
+                del areas[nm]
+    dots = [[null_rng.choice([1, 1, 2, 3, 4]) for _ in range(C)] for _ in range(R)]
+    seps = [[null_rng.choice([' ', ' ', '  ']) for _ in range(C)] for _ in range(R)]
+    pxonly = null_rng.random() < 0.4
 
     def track(allow_fr=True):
         r = rng.random()
@@ -621,6 +753,8 @@ def gen_mon_grid(rng):
             return '%dfr' % rng.choice([1, 1, 2, 3])
         return 'minmax(%dpx, %dfr)' % (rng.choice([10, 20, 40]), rng.choice([1, 2]))
     cols = [track() for _ in range(C)]
+    if pxonly:
+        cols = [t if t.endswith('px') and '(' not in t else '%dpx' % null_rng.choice([20, 30, 50, 70]) for t in cols]
     if C >= 2 and rng.random() < 0.3:
         cols = ['repeat(%d, %s)' % (C, cols[0])]
         colsx = [cols[0][cols[0].index(',') + 2:-1]] * C
@@ -628,16 +762,19 @@ def gen_mon_grid(rng):
         colsx = cols
     Hdef = rng.random() < 0.5
     rows = [track(allow_fr=Hdef) for _ in range(R)]
+    if pxonly:
+        rows = [t if t.endswith('px') and '(' not in t else '%dpx' % null_rng.choice([20, 30, 50, 70]) for t in rows]
     items = []
     for nm in areas:
         if rng.random() < 0.85:
             items.append({'area': nm, 'via': rng.choice(['area', 'area', 'lines'])})
     if not items:
-        items.append({'area': 'a', 'via': 'area'})
+        items.append({'area': sorted(areas)[0], 'via': 'area'})
     for _ in range(rng.choice([0, 0, 1, 2])):
         items.append({'area': None, 'via': 'auto', 'span': rng.choice([1, 1, 2])})   # auto-placed
     rng.shuffle(items)
     return {'kind': 'grid', 'R': R, 'C': C, 'areas': areas, 'cols': cols, 'colsx': colsx, 'rows': rows,
+            'dots': dots, 'seps': seps,
             'W': rng.choice([300, 400, 500]), 'H': rng.choice([200, 300]) if Hdef else None,
             'cgap': rng.choice([0, 5, 10]), 'rgap': rng.choice([0, 4, 12]), 'items': items}
 
@@ -648,7 +785,14 @@ def mon_grid_html(c):
         for r in range(r0, r1):
             for k in range(c0, c1):
                 grid[r][k] = nm
-    tmpl = ' '.join("'%s'" % ' '.join(row) for row in grid)
+    dots, seps = c.get('dots'), c.get('seps')
+    if dots:
+        # null cells as runs of dots; white space (one or two spaces) between the cells
+        grid = [[('.' * dots[r][k] if cell == '.' else cell) + (seps[r][k] if k + 1 < c['C'] else '')
+                 for k, cell in enumerate(row)] for r, row in enumerate(grid)]
+        tmpl = ' '.join("'%s'" % ''.join(row) for row in grid)
+    else:
+        tmpl = ' '.join("'%s'" % ' '.join(row) for row in grid)
     st = ['display:grid', 'width:%dpx' % c['W'], 'grid-template-areas:%s' % tmpl,
           'grid-template-columns:%s' % ' '.join(c['cols']), 'grid-template-rows:%s' % ' '.join(c['rows']),
           'column-gap:%dpx' % c['cgap'], 'row-gap:%dpx' % c['rgap'], 'margin:5px 0 0 11px',
@@ -690,9 +834,21 @@ def judge_mon_grid(c, o):
     # auto-placed items may open implicit rows after the template: then the template rows do not fill the height
     fr_row = (fits_h and any('fr' in t for t in c['rows']) and
               all(it['area'] is not None for it in c['items']))
+    px_cols = [int(t[:-2]) for t in c['colsx']] if all(t.endswith('px') and '(' not in t for t in c['colsx']) else None
+    px_rows = [int(t[:-2]) for t in c['rows']] if all(t.endswith('px') and '(' not in t for t in c['rows']) else None
     for i in ar:
         x0, y0, x1, y1 = rect[i]
         r0, c0, r1, c1 = ar[i]
+        # the item stretches over its area: with px tracks the rectangle follows from the template text alone
+        if px_cols is not None:
+            ex0 = cx0 + sum(px_cols[:c0]) + c0 * c['cgap']
+            ex1 = ex0 + sum(px_cols[c0:c1]) + (c1 - c0 - 1) * c['cgap']
+            if abs(x0 - ex0) > EPS or abs(x1 - ex1) > EPS:
+                bad.append(('area-columns-from-template', (i, c['items'][i]['area'], (x0, x1), (ex0, ex1))))
+        if px_rows is not None:
+            ey0 = cy0 + sum(px_rows[:r0]) + r0 * c['rgap']
+            if abs(y0 - ey0) > EPS:
+                bad.append(('area-row-from-template', (i, c['items'][i]['area'], y0, ey0)))
         if x1 < x0 - EPS or y1 < y0 - EPS:
             bad.append(('non-negative-size', (i, rect[i])))
         if c0 == 0 and abs(x0 - cx0) > EPS:
